@@ -61,6 +61,10 @@ func startInstance(dir, rootID string) (*instance, error) {
 	if err := st.WaitStart(ctx); err != nil {
 		return nil, err
 	}
+	// make sure the server has registered the store's subscriptions before anybody sends a request
+	if err := nc.Flush(); err != nil {
+		return nil, err
+	}
 	return in, nil
 }
 
